@@ -363,9 +363,9 @@ type c33Trans struct {
 
 type c33Stats struct {
 	States, Transitions, Terminals, Panics, Types, Methods, Roots int
-	ParamKinds                                                   map[string]int
-	Unhandled                                                    map[string]int
-	NonStep                                                      map[string]int
+	ParamKinds                                                    map[string]int
+	Unhandled                                                     map[string]int
+	NonStep                                                       map[string]int
 }
 
 // c33walk runs the BFS. visit is called for every executed transition
@@ -880,7 +880,6 @@ func TestVerif_C33(t *testing.T) {
 			step c33Step
 		}
 		kws := map[string]kwRec{}
-		nonVariadicKw := map[string]bool{}
 		st := c33walk(r, maxVisits, func(tr *c33Trans) {
 			r.Evaluations++
 			mkey := tr.Before.Type + "." + tr.Step.M
@@ -906,7 +905,6 @@ func TestVerif_C33(t *testing.T) {
 				rp.Other = &o
 				r.Violate(mkey+": keyword tokens depend on the argument values", fmt.Sprintf("%q for %v but %q for %v", prev.kw, prev.step.A, kw, tr.Step.A), rp)
 			}
-			_ = nonVariadicKw
 			if r.WantSample() && len(tr.Step.A) > 1 {
 				r.Sample(map[string]any{"call": tr.Parent.String() + "." + tr.Step.M, "args": tr.Step.A, "before": tr.Before.Argv, "after": tr.After.Argv})
 			}
